@@ -109,6 +109,18 @@ class Fn:
                 return "bool"
             if e[2] in ("copied", "cloned", "clone", "collect", "to_string_lossy", "chain", "iter", "ok", "to_string", "to_owned"):
                 return self.ty(e[1], env)
+            if e[2] == "next" and e[1][0] == "mcall" and e[1][2] == "split" and len(e[1][3]) == 1 and e[1][3][0][0] == "char":
+                return "Option<%s>" % (self.ty(e[1][1], env) or "str")
+            if e[2] == "and_then" and len(e[3]) == 1 and e[3][0][0] == "closure" and len(e[3][0][1]) == 1:
+                m = re.match(r"Option<(.*)>$", self.ty(e[1], env) or "")
+                if m and e[3][0][1][0][0] == "pbind":
+                    return self.ty(e[3][0][2], dict(env, **{e[3][0][1][0][1]: m.group(1)}))
+                return None
+            if e[2] == "unwrap_or":
+                m = re.match(r"Option<(.*)>$", self.ty(e[1], env) or "")
+                return m.group(1) if m else None
+            if e[2] == "strip_prefix":
+                return "Option<%s>" % (self.ty(e[1], env) or "str")
             if e[2] == "map_or_else" and len(e[3]) == 2 and e[3][0][0] == "path" and "::".join(e[3][0][1]) in self.calls:
                 return self.calls["::".join(e[3][0][1])][1]
             if e[2] == "unwrap_or_else":
@@ -401,6 +413,24 @@ class Fn:
                 env2 = dict(env, **add)
                 dflt = "false" if name == "is_some_and" else self.ex(args[0], env)
                 return "(match %s with Some %s => %s | None => %s end)" % (self.ex(recv, env), paren(ps), self.ex(clo[2], env2), dflt)
+            if name == "split" and len(args) == 1 and args[0][0] == "closure" and len(args[0][1]) == 1 and args[0][1][0][0] == "pref" \
+                    and args[0][1][0][1][0] == "pbind" and args[0][2][0] == "bin" and args[0][2][1] == "==" \
+                    and args[0][2][2] == ("path", [args[0][1][0][1][1]]) and args[0][2][3][0] == "num":
+                # bytes.split(|&b| b == C): the pieces between occurrences of C
+                return "(split_on %s %s)" % (args[0][2][3][1], self.ex(recv, env))
+            if name == "next" and not args and recv[0] == "mcall" and recv[2] == "split" and len(recv[3]) == 1 and recv[3][0][0] == "char":
+                # s.split(c).next(): the text before the first c (always Some)
+                return "(Some (before_sep %s %s))" % (recv[3][0][1], self.ex(recv[1], env))
+            if name == "and_then" and len(args) == 1 and args[0][0] == "closure" and len(args[0][1]) == 1 and re.match(r"Option<(.*)>$", self.ty(recv, env) or ""):
+                m = re.match(r"Option<(.*)>$", self.ty(recv, env))
+                ps, add = self.pat(args[0][1][0], env, m.group(1))
+                return "(match %s with Some %s => %s | None => None end)" % (self.ex(recv, env), paren(ps), self.ex(args[0][2], dict(env, **add)))
+            if name == "unwrap_or" and len(args) == 1 and re.match(r"Option<(.*)>$", self.ty(recv, env) or ""):
+                v = self.fresh("v")
+                return "(match %s with Some %s => %s | None => %s end)" % (self.ex(recv, env), v, v, self.ex(args[0], env))
+            if name == "strip_prefix" and len(args) == 1 and args[0][0] == "str":
+                lit = args[0][1].strip('"')
+                return "(strip_prefix_lit [%s] %s)" % ("; ".join(str(ord(c)) for c in lit), self.ex(recv, env))
             if name == "map_or_else" and len(args) == 2 and args[1][0] == "closure" and len(args[1][1]) == 1 and args[0][0] == "path" \
                     and re.match(r"Option<(.*)>$", self.ty(recv, env) or "") and "::".join(args[0][1]) in self.calls:
                 m = re.match(r"Option<(.*)>$", self.ty(recv, env))
@@ -1867,6 +1897,42 @@ def functions():
         return "Definition g_report (failed : Z) (verbose : bool) : bool :=\n  %s." % text
     out.append(("report", "src/bin/copia/incremental.rs report", None, t_report))
 
+    SPLITN3 = """{
+    let mut parts = s.splitn(3, '\\t');
+    let (Some(size), Some(mtime), Some(path)) = (parts.next(), parts.next(), parts.next())
+    else {
+        continue;
+    };
+}"""
+
+    def t_parse_listing():
+        src = read("src/bin/copia/meta.rs")
+        params, ret, body = R.find_fn(src, "parse_remote_meta_output", None)
+        norm = lambda x: json.loads(json.dumps(x))
+        want = R.Parser(R.tokenize(SPLITN3)).block()[1]
+        loops = [st for st in body[1] if st[0] == "for"]
+        if len(loops) != 1 or [n for n, _ in params] != ["stdout"]:
+            raise Unsupported("parse_remote_meta_output: expected one loop over the records of `stdout`")
+        lb = list(loops[0][3][1])
+        idx = next((i for i in range(len(lb)) if norm(lb[i:i + 2]) == norm(want)), None)
+        if idx is None:
+            raise Unsupported("parse_remote_meta_output: a record is no longer cut by `let mut parts = s.splitn(3, '\\t'); let (Some(size), Some(mtime), Some(path)) = (parts.next(), parts.next(), parts.next()) else { continue; };`")
+        # read as: the record up to the first TAB, up to the second TAB, and ALL the rest (a path may contain TABs); fewer than two TABs: skip
+        lb[idx:idx + 2] = [("let", ("ppath", ["Some"], [("ptuple", [("pbind", "size"), ("pbind", "mtime"), ("pbind", "path")])]), None,
+                            ("call", ("path", ["SPLITN3"]), [("path", ["s"])]), ("block", [("expr", ("continue",), True)], None))]
+        new_loop = ("for", loops[0][1], loops[0][2], ("block", lb, loops[0][3][2]))
+        stmts = [new_loop if st is loops[0] else st for st in body[1]]
+        spec = dict(paths={"Ok": "Some", "Some": "Some"},
+                    calls={"MetaMap::new": ("[]", "MetaMap"), "String::from_utf8_lossy": ("{0}", "str"), "SPLITN3": ("splitn3 TAB {0}", "Option<(str,str,str)>"),
+                           ".parse::<u64>": ("parse_u64 {0}", "Option<u64>"), ".parse::<i64>": ("parse_i64 {0}", "Option<i64>"),
+                           "PathBuf::from": ("{0}", "PathBuf")},
+                    structs={"FileMeta": ("Build_file_meta", ["size", "mtime"], ["u64", "i64"])},
+                    updates={"out.insert": "mm_insert {1} {2} {0}"}, param_types={"stdout": "Vec<u8>"})
+        fn = Fn(spec)
+        text = fn.block(("block", stmts, body[2]), {"stdout": "Vec<u8>"}, Ctx(val=(lambda x: x), ret=(lambda x: x), fall=None))
+        return "Definition g_parse_listing (stdout : list Z) : metamap :=\n  %s." % text
+    out.append(("parse_listing", "src/bin/copia/meta.rs parse_remote_meta_output", None, t_parse_listing))
+
     def t_run_remote():
         src = read("src/bin/copia/incremental.rs")
         params, ret, body = R.find_fn(src, "run_remote", None)
@@ -1960,6 +2026,7 @@ GROUPS = {
     "ArchiveSave": ("Model.ArchiveSys", "archivesys", ["archive_save"]),
     "OneWaySys": ("Model.OneWaySys", "onewaysys", ["tmp_path", "deliver_local", "deliver_pull"]),
     "OneWayRun": ("Model.Glob Model.Plan Model.OneWay", "onewayrun", ["run_local"]),
+    "ListingParse": ("Model.Glob Model.Plan Model.Listing", "listingparse", ["parse_listing"]),
     "OneWayPrint": ("Model.Glob Model.Plan Model.OneWay", "onewayprint", ["print_plan", "report"]),
     "RemoteRun": ("Model.Glob Model.Plan Model.OneWay", "remoterun", ["run_remote"]),
     "Archive": ("Model.Archive", "archive", ["archive_load"]),
@@ -2080,6 +2147,14 @@ def main():
                      "  | RSpawn (d : rdir) (rel : list Z) (mtime : option Z) | RJoin | RDeletes (d : rdir) (dels : list (list Z)) | RReport.\n\n" + "\n".join(texts) + "End WithScans.\n")
         elif digest == "onewayprint":
             body += "\n(* one line of `sync --dry-run` on stdout *)\nInductive pline := PSend (p : list Z) | PDelete (p : list Z).\n\n" + "\n".join(texts)
+        elif digest == "listingparse":
+            body += ("\n(* `s.splitn(3, sep)` taken three times: up to the first sep, up to the second, and all the rest *)\n"
+                     "Definition splitn3 (sep : Z) (s : list Z) : option (list Z * list Z * list Z) :=\n"
+                     "  match split_first sep s with\n  | Some (a, r) => match split_first sep r with Some (b, c) => Some (a, b, c) | None => None end\n  | None => None\n  end.\n"
+                     "(* `s.strip_prefix(\"lit\")` *)\n"
+                     "Fixpoint strip_prefix_lit (pre s : list Z) : option (list Z) :=\n"
+                     "  match pre with\n  | [] => Some s\n  | p :: pre' => match s with x :: s' => if x =? p then strip_prefix_lit pre' s' else None | [] => None end\n  end.\n\n"
+                     + "\n".join(texts))
         elif digest == "archivesys":
             body = (HEADER % (group, imports)) + "\nSection WithFs.\nVariable path_exists : apath -> bool.   (* path.exists() *)\n\n" + "\n".join(texts) + "End WithFs.\n"
         elif digest == "onewaysys":
